@@ -33,7 +33,9 @@ def run(ck):
         "(LAZY) in the field whose representation is [0, 2M), equality and zero tests on raw representation values are applied to "
         "normalised values and as_int returns a normalised value. (CANON) serialisation writes as_int() when the representation is "
         "not canonical; where IS_CANONICAL is true the raw value is the residue. Agreement of add/mul/inv with integer arithmetic "
-        "for all operands is not decided (bit-vector carry logic)."
+        "for all operands is not decided (bit-vector carry logic). (REPR) For the lazy field the RANGE half of that agreement is decided: "
+        "assuming every incoming element is in [0, 2M), every element the module constructs is again in [0, 2M) — the invariant that "
+        "normalize(), as_int(), equality and the single conditional subtraction of add/double rely on."
     )
     ck.rule("CONST", "published constants satisfy their defining equations (exact integer arithmetic on extracted constants)")
     ck.rule("GUARD", "checked conversions and the deserializer reject exactly the values >= M of their own field, before any truncation")
@@ -46,6 +48,10 @@ def run(ck):
         canon_rule(ck, prog, fname, info)
         if info["lazy"]:
             lazy_rule(ck, prog, fname, info)
+    ck.rule("REPR", "[0,2M) representation (f62): every BaseElement constructed by new/add/sub/mul/neg/double/inv/conversions stores a value in [0, 2M) "
+                    "for all inputs (interval analysis with case splits on the quotient estimate and order facts)")
+    from . import repr_range
+    repr_range.run_rule(ck, prog)
     ck.control("an even number is not accepted as a proved prime", not numth.lucas_prime_proof(2**64 - 2**32 + 2))
 
 
